@@ -79,6 +79,11 @@ CHECKS = {
         text="Scoped / IdleIsNone / Isolated for all call trees of depth <= 3 on two threads; 2- and 3-thread schedules of 24 actions replayed with the public-API observation (stub vs full, contexts vs bare, guard error) compared after every action on 3.9-3.12",
         note="depth <= 3; observations only through extract_child / fill_context; hooks that raise are represented by extract_outermost ending by exception through push()'s finally",
         ref="3.3, 4 C13"),
+    "C14": dict(
+        technique="TLA+ spec of Trio task-tree evolution (TaskTree.tla; the state is the expected extraction), TLC exhaustive under VIEW + simulated evolutions replayed by command-interpreting Trio tasks; extract(root, recurse_child_tasks=True) compared with the spec tree at every second step",
+        text="open-nursery (four source forms of the body), start-child, leave-body (blocks in __aexit__ while children live), child-finishes over <= 6 tasks and nesting <= 3; nurseries by identity in nesting order, children by root identity, is_exiting, no error / warning; spec tree first checked against Trio's child_nurseries / child_tasks; to_thread / from_thread ping-pong depth 0..2, outside and inside",
+        note="3.12 only; one trio.run per behaviour; thread hops as static scenarios (PingPong(d)), not part of the dynamic model",
+        ref="3.7, 4 C14"),
     "C15": dict(
         technique="TLA+ spec of greenlet forests (Greenlets.tla: parent assignments, start/call/return/finish, observers), TLC exhaustive under VIEW + simulated behaviours replayed with command-interpreting greenlet bodies; greenback bridges Bridge(d) replayed under Trio",
         text="for every reachable forest state extract(target) is called by the observer the behaviour names (main, the target itself, a child, an unrelated greenlet) and must return the target's own segment (entry .. switch point), nothing for unstarted/dead; a greenlet running in another thread must give an error; greenback alternation depth 0..3 from outside and inside the task",
